@@ -114,6 +114,7 @@ struct Out {
 	endings: usize,
 	max_served: usize,
 	states: Vec<(usize, u32)>,
+	ghost_retries: u64,
 }
 
 async fn settle(ms: u64) {
@@ -776,6 +777,7 @@ async fn run_tspec(spec: &TSpec) -> Result<Out, String> {
 	let mut kept: Vec<tokio::net::TcpStream> = Vec::new();
 	let mut held: Vec<THeld> = Vec::new();
 	let mut wss: Vec<TWs> = Vec::new();
+	let mut ghost_possible = false;
 	macro_rules! bad {
 		($sig:expr, $($arg:tt)*) => { out.violations.push(($sig.to_string(), format!($($arg)*))) };
 	}
@@ -796,6 +798,26 @@ async fn run_tspec(spec: &TSpec) -> Result<Out, String> {
 		}
 		let full = served >= spec.max as usize;
 		let before_started = sh.started.lock().unwrap().len();
+		let mut ghost_tries = 0u32;
+		// A request that was reset without waiting for evidence of its admission (UpgradeThenRst, CutInBody) may be taken up by
+		// the server *later*, and then holds a slot for a moment although the model has already written it off. An attempt that
+		// is refused (or a probe that counts one connection too many) although the model has a free slot is therefore repeated
+		// after a pause while such a ghost is possible; it is a violation only if it persists (a leaked slot persists and is
+		// reported by the occupancy comparison anyway). Admissions beyond the limit and occupancy below the model are never excused.
+		macro_rules! ghost_or_bad {
+			($l:lifetime, $sig:expr, $($arg:tt)*) => {
+				if ghost_possible && ghost_tries < 50 {
+					ghost_tries += 1;
+					out.ghost_retries += 1;
+					tokio::time::sleep(Duration::from_millis(2 * ghost_tries as u64)).await;
+					let _ = tcp_settle(&guard, served).await;
+					continue $l;
+				} else {
+					bad!($sig, $($arg)*)
+				}
+			};
+		}
+		'retry: loop {
 		match op {
 			TOp::Quick | TOp::KeepAliveNew => {
 				out.attempts += 1;
@@ -810,12 +832,19 @@ async fn run_tspec(spec: &TSpec) -> Result<Out, String> {
 						bad!(format!("not-refused-429/{}", op.kind()), "{served} of {} slots in use but the attempt got status {} body {}", spec.max, rep.status, rep.text());
 					}
 				} else {
-					out.admitted += 1;
-					if rep.status != 200 {
+					if rep.status == 429 {
+						ghost_or_bad!('retry, format!("refused-with-free-slot/{}", op.kind()), "{served} of {} slots in use but the attempt got status {}", spec.max, rep.status);
+					} else if rep.status != 200 {
 						bad!(format!("refused-with-free-slot/{}", op.kind()), "{served} of {} slots in use but the attempt got status {}", spec.max, rep.status);
-					} else if rep.json().map(|v| v["result"].clone()) != Some(json!(served as u64 + 1)) {
-						bad!("occupancy-wrong/during-http-call", "probe reported {:?}, model says {} (incl. the probe itself)", rep.json(), served + 1);
+					} else {
+						let n = rep.json().and_then(|v| v["result"].as_u64());
+						if n.is_some_and(|n| n > served as u64 + 1) {
+							ghost_or_bad!('retry, "occupancy-wrong/during-http-call", "probe reported {:?}, model says {} (incl. the probe itself)", rep.json(), served + 1);
+						} else if n != Some(served as u64 + 1) {
+							bad!("occupancy-wrong/during-http-call", "probe reported {:?}, model says {} (incl. the probe itself)", rep.json(), served + 1);
+						}
 					}
+					out.admitted += 1;
 				}
 				if keep && rep.status == 200 {
 					kept.push(s);
@@ -823,7 +852,7 @@ async fn run_tspec(spec: &TSpec) -> Result<Out, String> {
 			}
 			TOp::KeepAliveAgain(k) => {
 				if kept.is_empty() {
-					continue;
+					break 'retry;
 				}
 				out.attempts += 1;
 				let i = k % kept.len();
@@ -841,10 +870,12 @@ async fn run_tspec(spec: &TSpec) -> Result<Out, String> {
 								bad!("not-refused-429/tcp-keepalive-reuse", "{served} of {} slots in use but a request on an idle keep-alive connection got status {}", spec.max, rep.status);
 							}
 						} else {
-							out.admitted += 1;
-							if rep.status != 200 {
+							if rep.status == 429 {
+								ghost_or_bad!('retry, "refused-with-free-slot/tcp-keepalive-reuse", "{served} of {} slots in use, status {}", spec.max, rep.status);
+							} else if rep.status != 200 {
 								bad!("refused-with-free-slot/tcp-keepalive-reuse", "{served} of {} slots in use, status {}", spec.max, rep.status);
 							}
+							out.admitted += 1;
 						}
 						if rep.status != 200 {
 							kept.remove(i);
@@ -859,7 +890,7 @@ async fn run_tspec(spec: &TSpec) -> Result<Out, String> {
 			}
 			TOp::KeepAliveDrop(k) => {
 				if kept.is_empty() {
-					continue;
+					break 'retry;
 				}
 				let s = kept.remove(k % kept.len());
 				if k % 2 == 0 { jrv::tcp::reset(s) } else { drop(s) }
@@ -882,19 +913,29 @@ async fn run_tspec(spec: &TSpec) -> Result<Out, String> {
 						bad!("handler-ran-for-refused/tcp-http-held-call", "a refused attempt reached the handler");
 					}
 				} else {
-					out.admitted += 1;
-					if !wait_started(&sh, &tag, lim).await {
-						bad!("refused-with-free-slot/tcp-http-held-call", "{served} of {} slots in use but the held call did not start within {lim:?}", spec.max);
-					} else {
-						served += 1;
-						held.push(THeld { tag: tag.clone(), sock: s });
+					let early = tokio::select! {
+						ok = wait_started(&sh, &tag, lim) => if ok { None } else { Some(0u16) },
+						rep = jrv::tcp::read_response(&mut s, lim) => Some(rep.map(|r| r.status).unwrap_or(1)),
+					};
+					match early {
+						None => {
+							out.admitted += 1;
+							served += 1;
+							held.push(THeld { tag: tag.clone(), sock: s });
+						}
+						Some(429) => {
+							tag_n -= 1;
+							out.attempts -= 1;
+							ghost_or_bad!('retry, "refused-with-free-slot/tcp-http-held-call", "{served} of {} slots in use but the held call was refused 429", spec.max);
+						}
+						Some(st) => bad!("refused-with-free-slot/tcp-http-held-call", "{served} of {} slots in use but the held call did not start within {lim:?} (status {st}; 0 = no answer, 1 = connection error)", spec.max),
 					}
 				}
 				out.history.push(format!("{oi}: held call {tag} (full={full}) -> served {served}"));
 			}
 			TOp::Release(k) | TOp::HoldRst(k) => {
 				if held.is_empty() {
-					continue;
+					break 'retry;
 				}
 				let mut h = held.remove(k % held.len());
 				if matches!(op, TOp::Release(_)) {
@@ -924,6 +965,10 @@ async fn run_tspec(spec: &TSpec) -> Result<Out, String> {
 						wss.push(TWs { ws, kill, held_tags: vec![] });
 					}
 					Err(WsConnectError::Rejected(code)) => {
+						if !full && code == 429 {
+							out.attempts -= 1;
+							ghost_or_bad!('retry, "refused-with-free-slot/tcp-ws-open", "{served} of {} slots in use but the upgrade was refused with {code}", spec.max);
+						}
 						out.refused += 1;
 						if !full {
 							bad!("refused-with-free-slot/tcp-ws-open", "{served} of {} slots in use but the upgrade was refused with {code}", spec.max);
@@ -937,7 +982,7 @@ async fn run_tspec(spec: &TSpec) -> Result<Out, String> {
 			}
 			TOp::WsCall(k) | TOp::WsRstMidCall(k) => {
 				if wss.is_empty() {
-					continue;
+					break 'retry;
 				}
 				let i = k % wss.len();
 				tag_n += 1;
@@ -965,7 +1010,7 @@ async fn run_tspec(spec: &TSpec) -> Result<Out, String> {
 			}
 			TOp::WsCloseFrame(k) | TOp::WsFin(k) | TOp::WsRst(k) => {
 				if wss.is_empty() {
-					continue;
+					break 'retry;
 				}
 				let mut w = wss.remove(k % wss.len());
 				for t in &w.held_tags {
@@ -994,6 +1039,9 @@ async fn run_tspec(spec: &TSpec) -> Result<Out, String> {
 				let st = rep.as_ref().map(|r| r.status).unwrap_or(0);
 				if full && st != 429 {
 					bad!("not-refused-429/tcp-upgrade-101-then-reset", "{served} of {} slots in use but the upgrade got status {st}", spec.max);
+				} else if !full && st == 429 {
+					out.attempts -= 1;
+					ghost_or_bad!('retry, "refused-with-free-slot/tcp-upgrade-101-then-reset", "{served} of {} slots in use but the upgrade got status {st}", spec.max);
 				} else if !full && st != 101 {
 					bad!("refused-with-free-slot/tcp-upgrade-101-then-reset", "{served} of {} slots in use but the upgrade got status {st}", spec.max);
 				}
@@ -1004,6 +1052,7 @@ async fn run_tspec(spec: &TSpec) -> Result<Out, String> {
 				out.history.push(format!("{oi}: {} (full={full})", op.kind()));
 			}
 			TOp::UpgradeThenRst(d0) => {
+				ghost_possible = true;
 				// the window between "request taken" and "101 written" is a few microseconds wide and moves with the load of the
 				// machine: the attempt is repeated with other delays until the server's own trace shows that the branch was taken
 				// (every repetition is an attempt in its own right and is followed by the occupancy comparison)
@@ -1037,6 +1086,7 @@ async fn run_tspec(spec: &TSpec) -> Result<Out, String> {
 				out.history.push(format!("{oi}: request cut inside its header"));
 			}
 			TOp::CutInBody => {
+				ghost_possible = true;
 				out.attempts += 1;
 				let mut s = jrv::tcp::connect(addr).await?;
 				let _ = s.write_all(jrv::tcp::post_head(200, false).as_bytes()).await;
@@ -1055,6 +1105,8 @@ async fn run_tspec(spec: &TSpec) -> Result<Out, String> {
 				jrv::tcp::reset(s);
 				out.history.push(format!("{oi}: request cut inside its body (full={full})"));
 			}
+		}
+		break 'retry;
 		}
 		if sh.started.lock().unwrap().len() > before_started && full && !matches!(op, TOp::WsCall(_) | TOp::WsRstMidCall(_)) {
 			bad!(format!("handler-ran-for-refused/{}", op.kind()), "a handler started although {served} of {} slots were in use", spec.max);
@@ -1118,6 +1170,7 @@ fn tcp_pass(specs: Vec<(TSpec, &'static str)>, par: usize, verbose: bool) -> (Ev
 				ev.count("tcp_attempts_admitted", o.admitted as u64);
 				ev.count("tcp_occupancy_checks", o.occupancy_checks as u64);
 				ev.count("tcp_connection_endings", o.endings as u64);
+				ev.count("tcp_attempts_repeated_because_of_a_possible_late_request", o.ghost_retries);
 				if o.admitted > 0 && o.occupancy_checks > 0 {
 					ev.nontrivial(&("tcp", spec.max, &spec.ops));
 				}
